@@ -104,7 +104,7 @@ def mk_traj_states(F, p, t_first, n, maker=mk_ks_state):
 class ObstacleOverTime(Contract):
     prop = "C04"
     unroll = MVO
-    summaries = ()
+    summaries = ("make_valid_orientation",)  # callee contract (proved under C16) instead of re-inlining the loops
 
     def invoke(self, F, inp):
         o, t = inp["obs"], inp["t"]
@@ -311,6 +311,7 @@ for _role in ROLES:
         case = "role=%s" % (_role.name if _role else None)
         role = _role
         unroll = MVO
+        summaries = ("make_valid_orientation",)
         describe = "exactly the occupancies the per-obstacle answers imply (every role, or the selected role)"
 
         def build(self, F):
@@ -342,6 +343,7 @@ class ObstacleStatesAtTimeStep(Contract):
     prop = "C04"
     target = "commonroad.scenario.scenario.Scenario.obstacle_states_at_time_step"
     unroll = MVO
+    summaries = ("make_valid_orientation",)
     describe = "maps each static / dynamic obstacle id to the state its obstacle reports, omitting those without one"
 
     def build(self, F):
@@ -372,6 +374,7 @@ for _role, _type in ((None, None), (ObstacleRole.DYNAMIC, None), (None, Obstacle
         case = "role=%s,type=%s" % (_role.name if _role else None, _type.name if _type else None)
         role, otype = _role, _type
         unroll = MVO
+        summaries = ("make_valid_orientation",)
         describe = "exactly the obstacles with the selected role and type"
 
         def build(self, F):
@@ -392,6 +395,7 @@ class ObstaclesByPositionIntervals(Contract):
     prop = "C04"
     target = "commonroad.scenario.scenario.Scenario.obstacles_by_position_intervals"
     unroll = MVO
+    summaries = ("make_valid_orientation",)
     describe = "static: initial position in the box; dynamic: centre of the occupancy at the time step in the box"
 
     def build(self, F):
